@@ -22,7 +22,8 @@ static ALLOC: guard::LimitAlloc = guard::LimitAlloc;
 pub struct Out {
     pub ops: Vec<String>,
     pub impl_lines: Vec<String>,
-    pub oracle: Vec<String>,
+    /// (op line index relative to `base`, json with the placeholder @L@ for the line)
+    pub oracle: Vec<(usize, String)>,
     pub evaluations: u64,
     pub histogram: BTreeMap<String, u64>,
     pub distinct: HashSet<u64>,
@@ -85,9 +86,10 @@ impl Out {
     }
 
     pub fn merge(&mut self, o: Out) {
+        let offset = self.ops.len();
         self.ops.extend(o.ops);
         self.impl_lines.extend(o.impl_lines);
-        self.oracle.extend(o.oracle);
+        self.oracle.extend(o.oracle.into_iter().map(|(l, j)| (l + offset, j)));
         self.evaluations += o.evaluations;
         for (k, v) in o.histogram {
             *self.histogram.entry(k).or_insert(0) += v;
@@ -107,13 +109,13 @@ impl Out {
 
     pub fn violation(&mut self, case: u64, line: usize, key: &str, rule: &str, expected: &str, observed: &str) {
         self.hist(&format!("violation:{key}"));
-        self.oracle.push(format!(
-            "{{\"case\":{case},\"line\":{line},\"key\":{},\"rule\":{},\"expected\":{},\"observed\":{}}}",
+        self.oracle.push((line, format!(
+            "{{\"case\":{case},\"line\":@L@,\"key\":{},\"rule\":{},\"expected\":{},\"observed\":{}}}",
             json_str(key),
             json_str(rule),
             json_str(expected),
             json_str(observed)
-        ));
+        )));
     }
 
     pub fn case_done(&mut self, text: &str, nontrivial: bool) {
@@ -137,8 +139,8 @@ impl Out {
             writeln!(f, "{l}").unwrap();
         }
         let mut f = std::fs::File::create(format!("{dir}/oracle.jsonl")).unwrap();
-        for l in &self.oracle {
-            writeln!(f, "{l}").unwrap();
+        for (line, j) in &self.oracle {
+            writeln!(f, "{}", j.replace("@L@", &line.to_string())).unwrap();
         }
         let hist: Vec<String> = self
             .histogram
@@ -209,13 +211,12 @@ fn run_case_inner(out: &mut Out, ro: &mut crash::Reopener, prop: &str, n: u64, l
 
 /// Runs one case in its own thread under a watchdog; a case that does not finish is abandoned
 /// (its thread keeps running detached) and every op line of it gets the output `timeout`.
-fn run_case(out: &mut Out, dir: &str, prop: &str, n: u64, lines: &[String]) {
+pub fn run_case(out: &mut Out, dir: &str, prop: &str, n: u64, lines: &[String]) {
     let (tx, rx) = std::sync::mpsc::channel();
     let prop_s = prop.to_string();
     let lines_v: Vec<String> = lines.to_vec();
     let limit = out.limit;
     let inject = out.inject_prop;
-    let base = out.ops.len();
     out.case_counter += 1;
     let dir = format!("{dir}/c{}", out.case_counter);
     let dir2 = dir.clone();
@@ -226,7 +227,6 @@ fn run_case(out: &mut Out, dir: &str, prop: &str, n: u64, lines: &[String]) {
             let mut local = Out::new();
             local.limit = limit;
             local.inject_prop = inject;
-            local.base = base;
             let mut ro = crash::Reopener::new(&dir2);
             run_case_inner(&mut local, &mut ro, &prop_s, n, &lines_v);
             let _ = tx.send(local);
@@ -255,6 +255,49 @@ fn run_case(out: &mut Out, dir: &str, prop: &str, n: u64, lines: &[String]) {
             };
             out.violation(n, line, &key, "every step of a case must terminate", "terminates", &format!("no result after {secs}s"));
             out.cases += 1;
+        }
+    }
+}
+
+/// Runs independent cases on a pool of threads; results are merged in case order.
+pub fn run_cases_parallel(out: &mut Out, dir: &str, prop: &str, cases: Vec<(u64, Vec<String>)>) {
+    let threads = std::thread::available_parallelism().map(|n| n.get()).unwrap_or(4).clamp(1, 12);
+    let n = cases.len();
+    let cases = std::sync::Arc::new(cases);
+    let next = std::sync::Arc::new(std::sync::atomic::AtomicUsize::new(0));
+    let results: std::sync::Arc<std::sync::Mutex<Vec<Option<Out>>>> =
+        std::sync::Arc::new(std::sync::Mutex::new((0..n).map(|_| None).collect()));
+    let mut handles = vec![];
+    for t in 0..threads {
+        let cases = cases.clone();
+        let next = next.clone();
+        let results = results.clone();
+        let dir = format!("{dir}/p{t}");
+        let prop = prop.to_string();
+        let limit = out.limit;
+        let inject = out.inject_prop;
+        handles.push(std::thread::spawn(move || {
+            loop {
+                let i = next.fetch_add(1, std::sync::atomic::Ordering::SeqCst);
+                if i >= cases.len() {
+                    break;
+                }
+                let mut local = Out::new();
+                local.limit = limit;
+                local.inject_prop = inject;
+                local.case_counter = i as u64;
+                run_case(&mut local, &dir, &prop, cases[i].0, &cases[i].1);
+                results.lock().unwrap()[i] = Some(local);
+            }
+        }));
+    }
+    for h in handles {
+        let _ = h.join();
+    }
+    let mut results = results.lock().unwrap();
+    for r in results.iter_mut() {
+        if let Some(local) = r.take() {
+            out.merge(local);
         }
     }
 }
